@@ -2,6 +2,7 @@ package parser
 
 import (
 	"errors"
+	"strings"
 
 	"github.com/alecthomas/participle/v2"
 	"github.com/alecthomas/participle/v2/lexer"
@@ -40,6 +41,19 @@ var DefaultParserOptions = []participle.Option{
 	participle.UseLookahead(1),
 	participle.Elide("Whitespace", "EOL"),
 	participle.Unquote("String"),
+	participle.Map(decimalInt, "Int"),
+}
+
+// decimalInt removes the leading zeros of an integer literal: integers are base 10
+// (GRAMMAR.md), while the conversion of captured tokens detects the base from the prefix
+// and would read 010 as 8 and refuse 09.
+func decimalInt(token lexer.Token) (lexer.Token, error) {
+	v := strings.TrimLeft(token.Value, "0")
+	if v == "" {
+		v = "0"
+	}
+	token.Value = v
+	return token, nil
 }
 
 type Parser interface {
